@@ -128,6 +128,7 @@ def apply(unit_facts, log=None):
             _compound_assignments(fd, log)
             known = inv["functions"].get(fd["file"], {}).get(fd.get("inv_name", fd["name"]))
             _propagate_new_locals(fd, known, log)
+            _cancel_addr_deref(fd, log)
             _expand_flag_branches(fd, log)
             if known is not None and known.get("switches", 0) > sum(1 for b in fd["blocks"]
                                                                      if (b.get("term") or {}).get("kind") == "SwitchStmt"):
@@ -457,6 +458,65 @@ def _inline_at(fd, bid, pos, cid, callee, serial):
 
 def _locals_fd(fd):
     return _locals(fd)
+
+
+# --------------------------------------------------------------------------
+# N9 `*&x` is `x`, `(&s)->m` is `s.m` (what N4 leaves behind when a helper took a pointer to a caller's local)
+
+def _cancel_addr_deref(fd, log):
+    exprs = fd["exprs"]
+    n = 0
+
+    def addr_child(i):
+        """The operand of `&` when node i is (a cast of) `&operand` created by substitution, else None."""
+        k = 0
+        while i is not None and i >= 0 and k < 10:
+            e = exprs[i]
+            if e["k"] == "cast" and e.get("ck") in ("LValueToRValue", "NoOp") and e.get("c"):
+                i = e["c"][0]
+            elif e["k"] == "un" and e["op"] == "&" and e.get("c"):
+                return e["c"][0] if (e.get("subst") or exprs[i].get("subst")) else None
+            else:
+                return None
+            k += 1
+        return None
+    for e in exprs:
+        if e["k"] == "un" and e["op"] == "*" and e.get("c"):
+            c = _subst_addr(exprs, e["c"][0])
+            if c is not None:
+                src = exprs[c]
+                ln = e.get("line")
+                keep = {k: e[k] for k in ("t", "it", "psz", "prec", "arr", "esz") if k in e}
+                e.clear()
+                e.update(copy.deepcopy(src))
+                e.update(keep)
+                if ln is not None:
+                    e["line"] = ln
+                n += 1
+        elif e["k"] == "mem" and e.get("arrow") and e.get("c"):
+            c = _subst_addr(exprs, e["c"][0])
+            if c is not None:
+                e["c"] = [c]
+                e.pop("arrow", None)
+                n += 1
+    if n:
+        log.add("N9", "%s(): %d `*&x` / `(&s)->m` read as `x` / `s.m`" % (fd["name"], n))
+
+
+def _subst_addr(exprs, i):
+    k = 0
+    subst = False
+    while i is not None and i >= 0 and k < 10:
+        e = exprs[i]
+        subst = subst or bool(e.get("subst"))
+        if e["k"] == "cast" and e.get("ck") in ("LValueToRValue", "NoOp") and e.get("c"):
+            i = e["c"][0]
+        elif e["k"] == "un" and e["op"] == "&" and e.get("c"):
+            return e["c"][0] if subst else None
+        else:
+            return None
+        k += 1
+    return None
 
 
 # --------------------------------------------------------------------------
